@@ -127,9 +127,9 @@ type evaluator struct {
 	block  map[int]bool
 	depth  int
 
-	cells   map[*ssa.Alloc]bool            // tracked local cells (non-escaping)
-	cellOut map[int]map[*ssa.Alloc]aval    // state at block exit
-	cur     map[*ssa.Alloc]aval            // state while stepping through a block
+	cells   map[*ssa.Alloc]bool         // tracked local cells (non-escaping)
+	cellOut map[int]map[*ssa.Alloc]aval // state at block exit
+	cur     map[*ssa.Alloc]aval         // state while stepping through a block
 }
 
 // trackable: a local cell used only through stores, loads and field addresses that are themselves only loaded/stored.
